@@ -1,6 +1,7 @@
 import LeaspyVerif.Proto
 import LeaspyVerif.Model.Anneal
 import LeaspyVerif.Model.StdAdapt
+import LeaspyVerif.Model.FitLoop
 open LeaspyVerif LeaspyVerif.Proto LeaspyVerif.Anneal LeaspyVerif.StdAdapt
 
 /-
@@ -14,6 +15,17 @@ requests (one line = one complete case)
         (float32 values are sent as the equal double)
         → std=<f…,…;f…,…;…>                  scales (float32, printed as doubles) after each call
         | err:zerodiv
+  loop kind=<fit|pers> niter=<n> nb=<n> nvars=<n> on=<0|1> t0=<f…> P=<int> na=<int|none> frac=<f…|none> clamp=<0|1>
+       order=<v,v,…;v,v,…;…|sorted>
+        one whole run of the fit / personalisation loop (`Model/FitLoop.lean`); `order` = the variables (rank in the
+        sorted list of names) in the order their samplers were called, one row per iteration
+        → ok it=<ev>,<ev>,…;<ev>,…;…         one row per iteration, events in call order:
+             s<v>@<f…>   sampler of variable v called with this temperature_inv (float64 bits)
+             m<ml><burn> maximisation step: memory-less flag, burn_in flag        (fit)
+             k<kept>     draws kept                                                (personalisation)
+             T@<f…>      _update_temperature, temperature afterwards (float64 bits)
+        | refused err:algo | crash err:zerodiv
+        | err:order k=<k>                    row k is not a permutation of 0 … nvars-1 (or wrong number of rows)
 -/
 
 def fmtErr : Err → String
@@ -70,10 +82,52 @@ def handleStd (args : List String) : Option String := do
     let out ← (List.range rows.length).mapM (fun t => ts.mapM (fun tr => tr[t]?))
     some s!"std={fmtList2 (fun (x : Float32) => fmtFloat x.toFloat) out}"
 
+def fmtEvent : FitLoop.Event Float → String
+  | .sample v t => s!"s{v}@{fmtFloat t}"
+  | .mstep ml b => s!"m{fmtBool ml}{fmtBool b}"
+  | .keep b => s!"k{fmtBool b}"
+  | .updateT t => s!"T@{fmtFloat t}"
+
+def handleLoop (args : List String) : Option String := do
+  let kindS ← kv args "kind"
+  let kind ← if kindS == "fit" then some FitLoop.Kind.fit else if kindS == "pers" then some FitLoop.Kind.personalize else none
+  let n ← (kv args "niter") >>= parseNat
+  let nb ← (kv args "nb") >>= parseNat
+  let nv ← (kv args "nvars") >>= parseNat
+  let on ← (kv args "on") >>= parseBool
+  let t0 ← (kv args "t0") >>= parseFloat
+  let p ← (kv args "P") >>= parseInt
+  let c ← kv args "na"
+  let f ← kv args "frac"
+  let clamp ← (kv args "clamp") >>= parseBool
+  let count ← if c == "none" then some none else some <$> parseInt c
+  let frac ← if f == "none" then some none else some <$> parseFloat f
+  let ordS ← kv args "order"
+  let rows ← if ordS == "sorted" then some (List.replicate n (List.range nv)) else parseList2 parseNat ordS
+  -- the shuffles must be permutations of all the variables (hypothesis `ValidOrder` of the theorems)
+  if rows.length != n then some s!"err:order k={rows.length + 1}" else
+  let isPerm (r : List Nat) : Bool := r.length == nv && (List.range nv).all (fun v => r.contains v)
+  match (rows.zipIdx.find? (fun (r, _) => !isPerm r)) with
+  | some (_, i) => some s!"err:order k={i + 1}"
+  | none =>
+    let order : Nat → List Nat := fun k => (rows[k - 1]?).getD []     -- k = 1 … n, all rows present (checked above)
+    let na : Except Err Int := if on then annealCount n count frac else .ok 0
+    match na with
+    | .error e => some s!"refused {fmtErr e}"
+    | .ok na =>
+      let cfg : FitLoop.Config Float := ⟨kind, n, nb, ⟨on, t0, p, na⟩, nv⟩
+      match init cfg.anneal with
+      | .error e => some s!"refused {fmtErr e}"
+      | .ok _ =>
+        match FitLoop.run cfg clamp order with
+        | .ok l => some s!"ok it={fmtList (fun evs => fmtList fmtEvent evs) l ";"}"
+        | .error e => some s!"crash {fmtErr e}"
+
 def handle (line : String) : String :=
   match line.splitOn " " with
   | "anneal" :: args => (handleAnneal args).getD "bad-request"
   | "std" :: args => (handleStd args).getD "bad-request"
+  | "loop" :: args => (handleLoop args).getD "bad-request"
   | _ => "bad-request"
 
 def main : IO Unit := loop handle
